@@ -38,6 +38,7 @@ const zNegInf = -1 << 30
 
 type zstate struct {
 	minLen map[string]int
+	maxLen map[string]int // upper bound of len(S) (absent = unknown)
 	diff   map[string]int // key S + "|" + v
 	hi     map[string]int
 	lo     map[string]int
@@ -51,7 +52,7 @@ type zalias struct {
 }
 
 func newZ() *zstate {
-	return &zstate{minLen: map[string]int{}, diff: map[string]int{}, hi: map[string]int{}, lo: map[string]int{}, alias: map[string]zalias{}}
+	return &zstate{minLen: map[string]int{}, maxLen: map[string]int{}, diff: map[string]int{}, hi: map[string]int{}, lo: map[string]int{}, alias: map[string]zalias{}}
 }
 
 func (z *zstate) clone() *zstate {
@@ -62,6 +63,9 @@ func (z *zstate) clone() *zstate {
 	}
 	for k, v := range z.diff {
 		n.diff[k] = v
+	}
+	for k, v := range z.maxLen {
+		n.maxLen[k] = v
 	}
 	for k, v := range z.hi {
 		n.hi[k] = v
@@ -112,6 +116,16 @@ func (z *zstate) join(o *zstate) bool {
 			ch = true
 		} else if ov > v {
 			z.hi[k] = ov
+			ch = true
+		}
+	}
+	for k, v := range z.maxLen {
+		ov, ok := o.maxLen[k]
+		if !ok {
+			delete(z.maxLen, k)
+			ch = true
+		} else if ov > v {
+			z.maxLen[k] = ov
 			ch = true
 		}
 	}
@@ -355,7 +369,47 @@ func (f *zfunc) assume(z *zstate, cond ast.Expr, truth bool) {
 }
 
 // assumeCmp: a OP b holds.
+// isVectorSizeValue: e is an ir.VectorSize value or a conversion of one (at most 4 by the IR's invariant).
+func (f *zfunc) isVectorSizeValue(e ast.Expr) bool {
+	e = ast.Unparen(e)
+	if call, ok := e.(*ast.CallExpr); ok && len(call.Args) == 1 {
+		if tv, ok := f.info.Types[call.Fun]; ok && tv.IsType() {
+			e = ast.Unparen(call.Args[0])
+		}
+	}
+	tv, ok := f.info.Types[e]
+	return ok && irTypeName(tv.Type) == "VectorSize" && tv.Value == nil
+}
+
 func (f *zfunc) assumeCmp(z *zstate, a ast.Expr, op token.Token, b ast.Expr) {
+	// v < int(x.Size): a vector size is at most 4
+	if f.isVectorSizeValue(b) {
+		if base, c0, ok := f.linear(z, a); ok && strings.HasPrefix(base, "v:") {
+			v := strings.TrimPrefix(base, "v:")
+			bound := -1
+			switch op {
+			case token.LSS:
+				bound = 3 - c0
+			case token.LEQ, token.EQL:
+				bound = 4 - c0
+			}
+			if bound >= 0 {
+				if cur, ok := z.hi[v]; !ok || bound < cur {
+					z.hi[v] = bound
+				}
+			}
+		}
+		return
+	}
+	if f.isVectorSizeValue(a) {
+		switch op {
+		case token.GTR:
+			f.assumeCmp(z, b, token.LSS, a)
+		case token.GEQ:
+			f.assumeCmp(z, b, token.LEQ, a)
+		}
+		return
+	}
 	ab, ac, ok1 := f.linear(z, a)
 	bb, bc, ok2 := f.linear(z, b)
 	if !ok1 || !ok2 {
@@ -376,6 +430,27 @@ func (f *zfunc) assumeCmp(z *zstate, a ast.Expr, op token.Token, b ast.Expr) {
 			key := strings.TrimPrefix(lb, "len:") + "|" + strings.TrimPrefix(rb, "v:")
 			if cur, ok := z.diff[key]; !ok || k > cur {
 				z.diff[key] = k
+			}
+			// len(S) - v >= k and len(S) <= M  =>  v <= M - k
+			if m, ok := z.maxLen[strings.TrimPrefix(lb, "len:")]; ok {
+				v := strings.TrimPrefix(rb, "v:")
+				if cur, ok := z.hi[v]; !ok || m-k < cur {
+					z.hi[v] = m - k
+				}
+			}
+		case strings.HasPrefix(lb, "v:") && strings.HasPrefix(rb, "v:"):
+			// a - b >= k with hi(a) known  =>  b <= hi(a) - k
+			a, b := strings.TrimPrefix(lb, "v:"), strings.TrimPrefix(rb, "v:")
+			if ha, ok := z.hi[a]; ok {
+				if cur, ok := z.hi[b]; !ok || ha-k < cur {
+					z.hi[b] = ha - k
+				}
+			}
+		case lb == "" && strings.HasPrefix(rb, "len:"):
+			// 0 - len(S) >= k  =>  len(S) <= -k
+			s := strings.TrimPrefix(rb, "len:")
+			if cur, ok := z.maxLen[s]; !ok || -k < cur {
+				z.maxLen[s] = -k
 			}
 		case lb == "" && strings.HasPrefix(rb, "v:"):
 			// 0 - v >= k  => v <= -k
@@ -435,6 +510,11 @@ func (z *zstate) killSlice(p string) {
 			delete(z.minLen, k)
 		}
 	}
+	for k := range z.maxLen {
+		if k == p || strings.HasPrefix(k, p+".") {
+			delete(z.maxLen, k)
+		}
+	}
 	for k := range z.diff {
 		s := k[:strings.Index(k, "|")]
 		if s == p || strings.HasPrefix(s, p+".") {
@@ -471,6 +551,18 @@ func (f *zfunc) assign(z *zstate, lhs ast.Expr, rhs ast.Expr) {
 		if rhs == nil {
 			z.killVar(vk)
 			return
+		}
+		// int(x) with x an ir.VectorSize: the IR only knows Vec2, Vec3, Vec4 (assumption, see evidence)
+		if call, okc := ast.Unparen(rhs).(*ast.CallExpr); okc && len(call.Args) == 1 {
+			if tv, okt := f.info.Types[call.Fun]; okt && tv.IsType() {
+				if atv, oka := f.info.Types[call.Args[0]]; oka && irTypeName(atv.Type) == "VectorSize" {
+					z.killVar(vk)
+					z.hi[vk] = 4
+					z.lo[vk] = 0
+					z.materialize()
+					return
+				}
+			}
 		}
 		b, c, ok := f.linear(z, rhs)
 		switch {
@@ -720,7 +812,37 @@ func (f *zfunc) checkSites(fn *funcInfo, z *zstate, n ast.Node, out *[]zsite, se
 			return false
 		case *ast.IndexExpr:
 			tv, ok := f.info.Types[x.X]
-			if !ok || !isParserElemSlice(tv.Type) {
+			if !ok {
+				return true
+			}
+			// fixed-size arrays indexed by a tracked variable: the bound is the array length
+			at := tv.Type
+			if p, ok := at.Underlying().(*types.Pointer); ok {
+				at = p.Elem()
+			}
+			if arr, ok := at.Underlying().(*types.Array); ok {
+				b, c0, okl := f.linear(z, x.Index)
+				if !okl || !strings.HasPrefix(b, "v:") {
+					return true // constant indices are checked by the compiler; other forms are not judged
+				}
+				v := strings.TrimPrefix(b, "v:")
+				proven, why := z.dead, ""
+				if h, ok := z.hi[v]; ok && int64(h+c0) <= arr.Len()-1 {
+					proven = true
+				} else if !proven {
+					why = "no upper bound below " + itoa(int(arr.Len())) + " is established for " + types.ExprString(x.Index)
+				}
+				idx, had := seen[x]
+				if !had {
+					seen[x] = len(*out)
+					*out = append(*out, zsite{Fn: fn, Expr: x, Proven: proven, Why: why})
+				} else if !proven {
+					(*out)[idx].Proven = false
+					(*out)[idx].Why = why
+				}
+				return true
+			}
+			if !isParserElemSlice(tv.Type) {
 				return true
 			}
 			p, okp := f.slicePath(x.X)
@@ -787,6 +909,7 @@ func (f *zfunc) analyseBody(fn *funcInfo, body *ast.BlockStmt, init *zstate, out
 	}
 	in := make([]*zstate, len(g.Blocks))
 	visits := make([]int, len(g.Blocks))
+	prevIn := make([]*zstate, len(g.Blocks))
 	for i := range in {
 		in[i] = newZ()
 		in[i].dead = true
@@ -808,12 +931,30 @@ func (f *zfunc) analyseBody(fn *funcInfo, body *ast.BlockStmt, init *zstate, out
 		b := g.Blocks[bi]
 		visits[bi]++
 		z := in[bi].clone()
-		if visits[bi] > 6 {
-			// widening: drop the decreasing relational facts
-			z.diff = map[string]int{}
-			z.hi = map[string]int{}
-			z.lo = map[string]int{}
+		if visits[bi] > 8 {
+			// widening: drop exactly the facts that are still getting weaker at this block
+			if pv := prevIn[bi]; pv != nil {
+				for k, v := range z.diff {
+					if ov, ok := pv.diff[k]; !ok || ov != v {
+						delete(z.diff, k)
+						delete(in[bi].diff, k)
+					}
+				}
+				for k, v := range z.hi {
+					if ov, ok := pv.hi[k]; !ok || ov != v {
+						delete(z.hi, k)
+						delete(in[bi].hi, k)
+					}
+				}
+				for k, v := range z.lo {
+					if ov, ok := pv.lo[k]; !ok || ov != v {
+						delete(z.lo, k)
+						delete(in[bi].lo, k)
+					}
+				}
+			}
 		}
+		prevIn[bi] = in[bi].clone()
 		// range body: key facts
 		if b.Kind == cfg.KindRangeBody {
 			if rs, ok := b.Stmt.(*ast.RangeStmt); ok && rs.Key != nil {
@@ -824,6 +965,10 @@ func (f *zfunc) analyseBody(fn *funcInfo, body *ast.BlockStmt, init *zstate, out
 						if z.minLen[p] < 1 {
 							z.minLen[p] = 1
 						}
+						if m, ok := z.maxLen[p]; ok {
+							z.hi[vk] = m - 1
+						}
+						z.lo[vk] = 0
 					}
 				}
 				if rs.Value != nil {
